@@ -49,6 +49,16 @@ def sources(tier, seed, ctx):
                      'names': (n // 13) % 4 if n % 13 == 6 else 0,
                      # the caller obtained and edited a pairwise-xor gadget of the same width before
                      'prelude': n % 17 == 3})
+    # many outputs (the xor stage and the final OR at widths around 8, 9, 16, 17): every output is an input or its
+    # negation; the two operands differ in exactly one output or not at all
+    for w in ([8, 9, 17] if tier == 'quick' else [7, 8, 9, 10, 15, 16, 17, 18, 25]):
+        for diff in (0, 1, w):
+            a = [3, [['NOT', [1]], ['NOT', [2]], ['NOT', [3]]]]
+            oa = [1 + (j % 6) for j in range(w)]
+            ob = list(oa)
+            if diff:
+                ob[diff - 1] = 1 + ((oa[diff - 1] + 2) % 6)
+            srcs.append({'a': a, 'b': a, 'oa': oa, 'ob': ob, 'shared': diff == 1, 'permute_right_inputs': False, 'ps': w, 'nest': 0, 'names': 0, 'prelude': False})
     ctx['gen_note'] = f'{npairs} pairs from U(2,2,T6+OR+NXOR,2)={len(nets)} and U(3,2,4 types,2)={len(n3)}'
     return srcs
 
@@ -62,6 +72,10 @@ def record(src):
     from .. import hist
 
     la = None if src['shared'] else [f'L{j}' for j in range(src['a'][0] + len(src['a'][1]))]
+    if la is not None and src.get('ps', 0) % 3 == 1:
+        # input labels of the left operand whose declared order is NOT their sorted order
+        ni_ = src['a'][0]
+        la = [f'L{ni_ - 1 - j}' for j in range(ni_)] + la[ni_:]
     lb = None if src['shared'] else [f'R{j}' for j in range(src['b'][0] + len(src['b'][1]))]
     ra = H.rec_from_net((src['a'][0], [(t, o) for t, o in src['a'][1]]), src['oa'], labels=la)
     rb = H.rec_from_net((src['b'][0], [(t, o) for t, o in src['b'][1]]), src['ob'], labels=lb)
